@@ -55,10 +55,16 @@ CLAIMS['C17'] = ('Bounded model checking of the registries behind lifecycle safe
                  'links, forest identifiers are positive, never issued twice, and dead identifiers resolve to no forest. Stand-ins: the domain\'s own std::set registry, per-forest '
                  'unpacked-node lists, std::string label assignment, growth of the registry vector (capacity reserved). Not covered: operation / compute-table teardown, '
                  'initialize/cleanup cycles, errors raised when a detached edge is used (whole-library level).', 'DESIGN.md 11.2 C17')
+CLAIMS['C11'] = ('Bounded model checking of the cardinality operation (real operations/cardinality.cc, card_templ<intcard>, real constructor) on the functions an edge denotes '
+                 'without a node: the empty function and the terminal true met at any level L, i.e. the full set / full relation (fully reduced) or the identity pattern '
+                 '(identity reduced): the recursion over the skipped levels returns the product of the sizes of the levels the function spans (relations: unprimed and primed; '
+                 'identity pattern: unprimed only), for sets and relations, every reduction rule, every level of a 2-variable domain (primed levels included) and every '
+                 'level size in [1,1023] (z3). Not covered: unpacking of real nodes and the compute table (cut), the real- and mpz-valued result types (z3 gave no verdict '
+                 'on the double products in 900 s), iterators, node/edge counts, masks (whole-library level).', 'DESIGN.md 11.2 C11')
 for p, why in [
     ('C03', 'construction from minterms and evaluation'), ('C07', 'compute tables inside operations; a component harness (harness/c07_ct.cc: real ct_styles.cc table with 8 buckets via hook H4, real node headers, 3 symbolic steps) was built and measured: '
             'symbolic execution alone did not finish in 50 min / ran out of 20 GB, because of std::vector growth, entry deletion and handle recycling loops over symbolic table state'),
-    ('C08', 'reachability fixed points'), ('C09', 'image operations over relation nodes'), ('C11', 'iterators and cardinality over real forests'),
+    ('C08', 'reachability fixed points'), ('C09', 'image operations over relation nodes'), 
     ('C13', 'variable reordering of real forests'), ('C15', 'index-set conversion and lookup over real forests'), ('C20', 'saturation over partitioned relations')]:
     NA[p] = L3 + 'no leaf kernel of this property (%s) is separable from that set-up, so no solver-decided check is claimed.' % why
 NA['C14'] = 'depends on libc/libstdc++ text formatting and parsing (fprintf/%e, istream) that cannot be encoded; stubbing it would assume the property'
